@@ -15,6 +15,12 @@ Theorem C18_send_sync_preserved : forall e, In e crate_types -> entry_ok e = tru
 Proof. apply forallb_forall. vm_compute. reflexivity. Qed.
 Print Assumptions C18_send_sync_preserved.
 
+(* ... and no type is left out: every struct / enum of the crate has both entries (a hand-written `unsafe impl Send` or `impl !Sync` replaces the
+   synthesized impl in rustdoc's output; the translator reads it all the same, and it must then agree with the structural derivation) *)
+Theorem C18_every_type_decided : complete_b n_types crate_types = true.
+Proof. vm_compute. reflexivity. Qed.
+Print Assumptions C18_every_type_decided.
+
 (* the table is not empty and contains the public combinator types (non-vacuity) *)
 Example C18_table_covers_combinators :
   forallb (fun n => existsb (fun e => String.eqb (e_name e) n) crate_types)
